@@ -17,6 +17,10 @@ type listModel struct {
 	capk  int // 0 = no capacity
 	neg   bool
 	fwd   bool
+	// nonest: the no-nesting option is set (Stack-like values are skipped by push)
+	nonest bool
+	// rejectB: a push policy rejects string values ending in "b" (used by the C10 scenarios)
+	rejectB bool
 }
 
 func (m *listModel) clone() *listModel {
@@ -29,8 +33,14 @@ func (m *listModel) full() bool { return m.capk > 0 && len(m.items) >= m.capk }
 
 func (m *listModel) push(vals ...any) {
 	for _, v := range vals {
+		if m.nonest && isStackLike(v) {
+			continue // refused; it does not use up room
+		}
 		if m.full() {
 			continue
+		}
+		if s, ok := v.(string); ok && m.rejectB && strings.HasSuffix(s, "b") {
+			break // the policy rejects it: the batch stops here
 		}
 		m.items = append(m.items, v)
 	}
